@@ -1,9 +1,11 @@
 import Driver.Proto
 import SpsdkVerif.Crypto.Exec
 import SpsdkVerif.Model.SymWrappers
+import SpsdkVerif.Model.SymStream
 open SpsdkVerif Driver
 open SpsdkVerif.Crypto
 open SpsdkVerif.SymWrappers
+open SpsdkVerif.SymStream
 
 def optHex : Option Bytes → String
   | some b => "ok:" ++ toHex b
@@ -138,11 +140,42 @@ def stepWrap : List String → Option String
     | .ok cn => pure ("ok:" ++ ",".intercalate (counterRun cn incs))
   | _ => none
 
+/-- one call on a `Hash` object: `i:<int>` = `update_int`, otherwise hex = `update` -/
+def parseCall (s : String) : Option HashCall :=
+  if s.startsWith "i:" then (parseInt (s.drop 2).toString).map HashCall.int else (parseHex s).map HashCall.bytes
+
+/-- phase 3: the incremental forms (Model/SymStream.lean) — the running SHA state machine, CRC continuation,
+    `Counter`-positioned AES-CTR -/
+def stepStream : List String → Option String
+  | "w_sha_stream" :: a :: calls => do
+    let a ← HashAlg.ofName? a
+    let calls ← calls.mapM parseCall
+    pure ("ok:" ++ toHex (calls.foldl ShaObj.call (ShaObj.new a)).finalize)
+  | "w_hmac_stream" :: a :: key :: chunks => do
+    let a ← HashAlg.ofName? a; let key ← parseHex key
+    let chunks ← chunks.mapM parseHex
+    pure ("ok:" ++ toHex (chunks.foldl HmacObj.update (HmacObj.new a key)).finalize)
+  | "w_crc_pieces" :: name :: pieces => do
+    let pieces ← pieces.mapM parseHex
+    pure (resLine toString (crcPieces name pieces))
+  | ["w_crc_resume", name, prev, d] => do
+    let prev ← parseNat prev; let d ← parseHex d
+    pure (resLine toString (crcResume name prev d))
+  | "w_ctr_chunks" :: k :: nonce :: cv :: little :: chunks => do
+    let k ← parseHex k; let nonce ← parseHex nonce; let cv ← parseOptInt cv; let little ← parseBool little
+    let chunks ← chunks.mapM parseHex
+    match Counter.new nonce cv little with
+    | .error e => pure e.tag
+    | .ok cn => pure (resLine toHex (ctrChunks c k cn chunks))
+  | _ => none
+
 def step (t : List String) : String :=
   match stepRef t with
   | some s => s
   | none => match stepWrap t with
     | some s => s
-    | none => "bad-op"
+    | none => match stepStream t with
+      | some s => s
+      | none => "bad-op"
 
 def main : IO Unit := Driver.loop step
